@@ -789,7 +789,7 @@ class _Select(Entry):
     def cases(self, ctx, round=0):
         r = ctx.rng
         cs = []
-        for _ in range(ctx.n(220, 3000)):
+        for _ in range(ctx.n(185, 2600)):
             p = r.random()
             if p < 0.08:
                 arr, na, kind = gen_substr_case(r, ctx)
@@ -902,7 +902,7 @@ class Add(Entry):
     def cases(self, ctx, round=0):
         r = ctx.rng
         cs = []
-        for _ in range(ctx.n(220, 3000)):
+        for _ in range(ctx.n(185, 2600)):
             arr = gen_array(r, ctx)
             have = [f["name"] for f in arr["fields"]]
             k = r.choice([1, 1, 2, 2, 3, 4])
@@ -1034,7 +1034,7 @@ class Combine(Entry):
     def cases(self, ctx, round=0):
         r = ctx.rng
         cs = []
-        for _ in range(ctx.n(220, 3000)):
+        for _ in range(ctx.n(185, 2600)):
             shape = gen_shape(r, ctx)
             k = r.choice([1, 2, 2, 2, 3, 3, 4])
             kind = r.choice(["same", "same", "same", "same", "same", "size-differs", "shared-name", "mixed-shape", "empty"])
@@ -1112,7 +1112,7 @@ class Copy(Entry):
     def cases(self, ctx, round=0):
         r = ctx.rng
         cs = []
-        for _ in range(ctx.n(220, 3000)):
+        for _ in range(ctx.n(185, 2600)):
             a1 = gen_array(r, ctx)
             kind = r.choice(["same-shape", "same-shape", "same-shape", "same-shape", "size-differs", "lead-1",
                              "incompatible-shape", "disjoint", "all-common-permuted", "order-differs", "order-differs"])
@@ -1182,7 +1182,7 @@ class CopyByName(Entry):
     def cases(self, ctx, round=0):
         r = ctx.rng
         cs = []
-        for _ in range(ctx.n(220, 3000)):
+        for _ in range(ctx.n(185, 2600)):
             if r.random() < 0.08:
                 arr, na, kind = gen_substr_case(r, ctx)
                 sel = na["names"]
@@ -1270,7 +1270,7 @@ class Split(Entry):
     def cases(self, ctx, round=0):
         r = ctx.rng
         cs = []
-        for _ in range(ctx.n(180, 2400)):
+        for _ in range(ctx.n(150, 2200)):
             p = r.random()
             if p < 0.08:
                 arr, na, kind = gen_substr_case(r, ctx)
@@ -1418,7 +1418,7 @@ class Compare(Entry):
     def cases(self, ctx, round=0):
         r = ctx.rng
         cs = []
-        for _ in range(ctx.n(240, 3000)):
+        for _ in range(ctx.n(200, 2600)):
             a1 = gen_array(r, ctx, mode=r.choice(["values", "finite", "finite"]))
             kind = r.choice(["copy", "copy", "byteswapped", "one-item", "one-item", "fields-differ", "reordered",
                              "shape-differs", "sub-differs", "neg-zero", "nan", "wider-string", "size-differs",
@@ -1620,7 +1620,7 @@ class CompareVerbose(Compare):
     def cases(self, ctx, round=0):
         keep = []
         for c in Compare.cases(self, ctx, round):
-            if str(c.get("family", "")).startswith(("long", "seq:")) or len(keep) >= ctx.n(70, 900):
+            if str(c.get("family", "")).startswith(("long", "seq:")) or len(keep) >= ctx.n(60, 800):
                 continue
             c = dict(c, verbose=True, omit_kw=False, family="verbose:" + str(c.get("family")))
             keep.append(c)
@@ -1656,7 +1656,9 @@ TRUSTED = [
     "field's element type (done by numpy in the harness; numpy casting rules are not modelled), numpy's == on items "
     "(IEEE NaN / signed zero, NUL-padded strings, byte order); CPython isinstance dispatch",
     "not covered: element types outside int/uint/float(2,4,8)/complex(8,16)/bool/bytes/unicode, nested or padded "
-    "(non-packed) dtypes, non-ASCII field names, copying between fields of the same name but different type (numpy cast)",
+    "(non-packed) dtypes, non-ASCII field names, copying between fields of the same name whose types differ in more than "
+    "the byte order (numpy cast; the byte-order-only conversion IS modelled, Swap.v), a tuple given as the value of "
+    "exactly one field",
     "translator harness/props/c07_translate.py (python ast -> C07/Gen.v, fail-closed): trusted to print what the source "
     "says about the isinstance class tuples, guard operators, filter polarity, allocator, output dimensions, keyword "
     "defaults and exception classes; Skel.v/Tie.v (proved) connect these values to Model.v; it also refuses (fail-closed) "
@@ -1666,6 +1668,9 @@ TRUSTED = [
     "observed by the harness, not in Coq: 'yields a NEW array' (np.shares_memory monitor; combine_fields of a one-element "
     "list returns that array itself and is not demanded to be a copy) and 'zero-filled' (buffers of the output's size filled "
     "with 0xAB are released before every allocating call, so an uninitialised output shows)",
+    "observed by the harness as the run-time side of the frame theorems (C07_store_frame): after every call each argument "
+    "that the call may not write holds exactly the bytes it held before; compare_arrays(verbose=True): the text written "
+    "to stdout is parsed into the events of Verbose.v (every character accounted for) and compared with the model",
     "python harness (harness/props/C07.py), literal printers (hex bytes, type strings), coqc evaluating Exec.v verdict terms",
 ]
 
